@@ -166,6 +166,7 @@ Failing(a, ev) ==
   \cup (IF ~ NoStore(ev) /\ ev.store # ExpStore(a) THEN {[clause |-> "store", expected |-> ExpStore(a)]} ELSE {})
   \cup (IF ~ ValidAllowed(a, store, ixValid, ev.valid = 1, Raised(ev)) THEN {[clause |-> "valid", expected |-> 1]} ELSE {})
   \cup (IF ~ IndexOK(ev) THEN {[clause |-> "index", expected |-> ev.ix.fresh]} ELSE {})
+  \cup (IF ~ NowOK(a, store) THEN {[clause |-> "now", expected |-> NowBase]} ELSE {})
   \cup IOFailing(a, ev)
 
 (* a logged store the specification cannot adopt (it contains a value the  *)
